@@ -151,7 +151,7 @@ def run(tier, seed):
             # the documented mirroring at the bounds the expression was constructed with (own, inherited through BayesRule, per block at any depth)
             eq, ep = q.copy(), p.copy()
             distgen.expected_reflect(node, eq, ep)
-            if not (np.array_equal(eq, qq) and np.array_equal(ep, pp)):
+            if not (distgen.reflect_close(eq, qq, None, None) and np.array_equal(ep, pp)):
                 findings.append(Finding("C13", f"{node.kind}: corrector() does not mirror at the bounds of the parts: coordinates {qq.ravel().tolist()} / momenta {pp.ravel().tolist()}, "
                                         f"expected {eq.ravel().tolist()} / {ep.ravel().tolist()}"[:400], {"kind": node.kind, "problem": "corrector"},
                                         {"oracle": "corrector", "stimulus": dict(stim, q=q.ravel().tolist(), p=p.ravel().tolist()),
